@@ -1,0 +1,48 @@
+//go:build verif
+
+package reassembly
+
+// Read-only accessors for the verification harness (build tag `verif` only).
+// They expose counters the lifecycle/leak-freedom property is stated about and
+// change no behaviour.
+
+// VerifPagesUsed returns the number of pages handed out by the assembler's
+// page cache and not yet returned.
+func (a *Assembler) VerifPagesUsed() int { return a.pc.used }
+
+// VerifHalfPages returns, for every half-connection of every connection in
+// the assembler's pool: the half's page counter, the length of its queue
+// (first..last) and the length of its saved list.
+func (a *Assembler) VerifHalfPages() (counters, queued, saved []int) {
+	a.connPool.mu.RLock()
+	defer a.connPool.mu.RUnlock()
+	for _, c := range a.connPool.conns {
+		for _, h := range []*halfconnection{&c.c2s, &c.s2c} {
+			q, s := 0, 0
+			for p := h.first; p != nil; p = p.next {
+				q++
+			}
+			for p := h.saved; p != nil; p = p.next {
+				s++
+			}
+			counters = append(counters, h.pages)
+			queued = append(queued, q)
+			saved = append(saved, s)
+		}
+	}
+	return
+}
+
+// VerifLiveConnections returns the number of connections in the pool.
+func (p *StreamPool) VerifLiveConnections() int {
+	p.mu.RLock()
+	defer p.mu.RUnlock()
+	return len(p.conns)
+}
+
+// VerifFreeConnections returns the length of the pool's free list.
+func (p *StreamPool) VerifFreeConnections() int {
+	p.mu.RLock()
+	defer p.mu.RUnlock()
+	return len(p.free)
+}
